@@ -149,10 +149,29 @@ def handler_names(elab):
     return names
 
 
-def real_load(schema, text, url="file:///zcvroot/main.conf", overrides=(), hnames=()):
-    """returns (outcome, config or None, handler)"""
+_reused_loaders = {}
+
+
+def real_load(schema, text, url="file:///zcvroot/main.conf", overrides=(), hnames=(), reuse=None):
+    """returns (outcome, config or None, handler).
+    Loads without overrides go, every other time, through ONE long-lived ConfigLoader per schema object (loader objects are
+    documented as reusable: the outcome must not depend on what the loader served before, failed loads included); the
+    others, and all loads with overrides, use the module-level entry point (a fresh loader)."""
     try:
-        cfg, handler = ZConfig.loadConfigFile(schema, io.StringIO(text), url, overrides=list(overrides))
+        if reuse is None:
+            _reused_loaders["n"] = _reused_loaders.get("n", 0) + 1
+            reuse = (_reused_loaders["n"] % 2 == 0)
+        if reuse and not overrides:
+            ld = _reused_loaders.get(id(schema))
+            if ld is None or ld[0] is not schema:
+                from ZConfig.loader import ConfigLoader
+                ld = (schema, ConfigLoader(schema))
+                if len(_reused_loaders) > 400:
+                    _reused_loaders.clear()
+                _reused_loaders[id(schema)] = ld
+            cfg, handler = ld[1].loadFile(io.StringIO(text), url)
+        else:
+            cfg, handler = ZConfig.loadConfigFile(schema, io.StringIO(text), url, overrides=list(overrides))
     except Exception as e:
         return classify_exc(e), None, None
     return ["ok"], cfg, handler
@@ -183,6 +202,10 @@ def real_load_entry(schema, path, overrides=(), entry="abs", main_rel="main.conf
         try:
             if entry == "url":
                 cfg, handler = ZConfig.loadConfig(schema, "file://" + urllib.request.pathname2url(path), overrides=list(overrides))
+            elif entry == "fileobj-pathurl":
+                # an open file object with the plain path name given as its URL (relative references are then joined to a path)
+                with open(arg, encoding="utf-8", newline="") as f:
+                    cfg, handler = ZConfig.loadConfigFile(schema, f, path, overrides=list(overrides))
             elif entry.startswith("fileobj"):
                 with open(arg, encoding="utf-8", newline="") as f:
                     cfg, handler = ZConfig.loadConfigFile(schema, f, overrides=list(overrides))
